@@ -1,4 +1,4 @@
-\* quick: extent-map query, inline refill, refill unit = 1 block, 2 readers x 1 read of 3 ranges, 1 eviction (explicit or sweep), 1 source fault
+\* thorough: 2 reads per reader, a new pool instance at rest (map rebuilt from data/hole seeks), 1 eviction
 SPECIFICATION Spec
 CONSTANTS
   NF = 1
@@ -8,15 +8,15 @@ CONSTANTS
   Readers = {r1, r2}
   r1 = r1
   r2 = r2
-  ReadSet <- RS_q3
-  NReads = 1
+  ReadSet <- RS_one
+  NReads = 2
   MaxEv = 1
   Async = FALSE
   MaxRefilling = 2
-  Faults = 1
-  Fiemap = TRUE
+  Faults = 0
+  Fiemap = FALSE
   CapFull = FALSE
-  ReopenMax = 0
+  ReopenMax = 1
   Bug = "none"
 SYMMETRY Sym
 INVARIANTS ReadsEqualSource FailedSourceNeverWrongBytes NeverBeyondSize MediaOnlyCorrectOrHole RefillDedup RangeLockDisjoint RefillingCount LocksAtRest TypeOK
